@@ -21,7 +21,7 @@ DOC = {
  "C10.R3": "a name clash (register's `?` Break edge) leaves the constructor without reaching unregister/pid registration and before any guard exists",
  "C10.R5": "where_is / where_is_pid read the map once and do not filter the answer by actor status (or only by a recognised test that admits Unstarted..Draining)",
  "C10.R6": "name ownership: constructors that store a name without registering it (remote proxies) exist only for non-local ids, and the exit cleanup unregisters the name only for local cells (or only the entry that is this cell)",
- "C10.R4": "= C06.R5 + C05.R1: unregistration is elected once by the RMW's previous value and happens before Stopped is stored / waiters are released",
+ "C10.R4": "= C06.R5 + C05.R1 + C06.R4: unregistration is elected once by the RMW's previous value (which is only sound because every writer of the status word is monotone -- a status moved back below Stopping would elect a second cleanup that evicts a live successor registered under the same name) and happens before Stopped is stored / waiters are released",
 }
 
 MUT = {"insert", "remove", "remove_if", "remove_if_mut", "alter", "alter_all", "retain", "clear", "entry", "try_entry", "get_mut", "iter_mut", "shrink_to_fit", "try_get_mut"}
@@ -146,6 +146,7 @@ def r3(run, db):
 def r4(run, db):
     c06.r5(run, db)
     c05.r1(run, db)
+    c06.r4(run, db)
 
 
 LIVE = ["Unstarted", "Starting", "Running", "Upgrading", "Draining"]
